@@ -261,10 +261,36 @@ class ListCase(object):
             expect_reject(lambda: self.obj.index(77), (ValueError,))
             return ('bad-index',)
         if op == 'bad-value':
+            # a value the declared component type cannot hold, or a non-iterable argument, through every mutator:
+            # the call is refused and nothing changes (schema stays schema, a value keeps its members)
+            how = rng.choice(['append', 'extend-first', 'extend-later', 'extend-non-iterable', 'setitem', 'setpos', 'slice'])
+            if how == 'extend-non-iterable':
+                expect_reject(lambda: self.obj.extend(5), (ValueError, TypeError))
+                return ('bad-value', how)
             if not self.typed:
                 return ('noop',)
-            expect_reject(lambda: self.obj.append('not-a-number'), (ValueError, TypeError))
-            return ('bad-value',)
+            bad = rng.choice(['not-a-number', univ.OctetString('wrong type'), None.__class__])
+            if how == 'append':
+                expect_reject(lambda: self.obj.append(bad), (ValueError, TypeError))
+            elif how == 'extend-first':
+                expect_reject(lambda: self.obj.extend([bad, 1]), (ValueError, TypeError))
+            elif how == 'extend-later':
+                # list.extend is not atomic either: members accepted before the refusal stay
+                try:
+                    self.obj.extend([1, bad])
+                except REJECT + (ValueError, TypeError):
+                    self.L = list(L or []) + [1]
+                else:
+                    raise Mismatch('ill-formed-op-accepted', 'extend([1, %r])' % (bad,))
+            elif how == 'setitem':
+                expect_reject(lambda: self.obj.__setitem__(n, bad), (ValueError, TypeError))
+            elif how == 'setpos':
+                expect_reject(lambda: self.obj.setComponentByPosition(rng.randint(0, n), bad), (ValueError, TypeError))
+            else:
+                if L is None:
+                    return ('noop',)
+                expect_reject(lambda: self.obj.__setitem__(slice(0, 1), [bad]), (ValueError, TypeError))
+            return ('bad-value', how)
         return ('noop',)
 
 
